@@ -220,6 +220,10 @@ pub struct TreeDesc {
     pub mandated: bool,
     /// application sub-tree (children of the root) served by SimHandlers
     pub app: Vec<TNode>,
+    /// a fixed tree built at compile time with the crate's `Root!` / `Branch!` / `Leaf!` macros
+    /// (`app` is ignored); currently only "macro"
+    #[serde(default, skip_serializing_if = "Option::is_none")]
+    pub fixed: Option<String>,
 }
 
 // ------------------------------------------------------------------------------------------
@@ -404,6 +408,12 @@ pub struct Plan {
     pub data: Vec<Datum>,
     #[serde(default, skip_serializing_if = "Option::is_none")]
     pub hw: Option<HwOp>,
+    /// the handler tolerates failing pulls (logs the error and carries on) instead of returning it
+    #[serde(default, skip_serializing_if = "is_false")]
+    pub swallow: bool,
+    /// the handler calls ResponseUnit::finish() after every datum (and returns its error, if any)
+    #[serde(default, skip_serializing_if = "is_false")]
+    pub finish_each: bool,
 }
 
 /// Lexical fault in the parameter part of a unit: elements with index < p can be delivered
